@@ -542,11 +542,12 @@ class Seq:
     """bytes or list value.  n: python int or z3 Int term.  at(k) -> element for index k
     (k python int or z3 term); elements are python values / SInt / SBool.
     kind 'list' values are mutable (append/extend/slice assignment update in place)."""
-    __slots__ = ('kind', 'n', '_at', 'items', 'elem', 'parts')
+    __slots__ = ('kind', 'n', '_at', 'items', 'elem', 'parts', 'src')
 
     def __init__(self, kind, n, at=None, items=None, elem='int'):
         self.kind = kind
         self.elem = elem
+        self.src = None            # for slices with symbolic bounds: (base sequence, lo term, hi term) - adjacent slices re-join
         self.parts = None          # for concatenations: the list of concatenated sequences (additive folds use it)
         if items is not None:
             self.items = list(items)
@@ -619,6 +620,7 @@ class Seq:
             return Seq(self.kind, None, items=self.items, elem=self.elem)
         c = Seq(self.kind, self.n, at=self._at, elem=self.elem)
         c.parts = self.parts
+        c.src = self.src
         return c
 
     def as_kind(self, kind):
@@ -688,6 +690,27 @@ def seq_concat(a, b):
     elem = a.elem if (a.items is None or a.items) else b.elem
     if a.items is not None and b.items is not None:
         return Seq(kind, None, items=a.items + b.items, elem=elem)
+    st_ = cur()
+    if st_ is not None:
+        # slice(x, l, m) ++ slice(x, m, h) is slice(x, l, h): data that arrives in pieces re-joins to the sequence it was cut from
+        ap = (a.parts or [a])
+        bp = (b.parts or [b])
+        la, fb = ap[-1], bp[0]
+        if la.src is not None and fb.src is not None and la.src[0] is fb.src[0] and st_.quick(la.src[2] == fb.src[1]):
+            joined = seq_slice(la.src[0], mk(la.src[1]), mk(fb.src[2])).as_kind(kind)
+            pieces = ap[:-1] + [joined] + bp[1:]
+            acc = pieces[0].as_kind(kind)
+            for p_ in pieces[1:]:
+                acc = _concat_raw(acc, p_.as_kind(kind))
+            return acc
+    return _concat_raw(a, b)
+
+
+def _concat_raw(a, b):
+    kind = a.kind
+    elem = a.elem if (a.items is None or a.items) else b.elem
+    if a.items is not None and b.items is not None:
+        return Seq(kind, None, items=a.items + b.items, elem=elem)
     an = a.n
 
     def at(k, a=a, b=b, an=an):
@@ -752,6 +775,8 @@ def seq_slice(s, lo, hi):
     l = norm(lo, z3.IntVal(0))
     h = norm(hi, nz)
     st = cur()
+    if st is not None and s.items is None and st.quick(z3.And(l == 0, h == nz)):
+        return s.copy()
     if s.parts and st is not None:
         # a slice that falls exactly on part boundaries of a concatenation is the concatenation of those parts
         # (keeps the term the sequence was built from, so uninterpreted folds over it stay congruent)
@@ -759,6 +784,11 @@ def seq_slice(s, lo, hi):
         for p_ in s.parts:
             pn = p_.n if not isinstance(p_.n, int) else z3.IntVal(p_.n)
             bounds.append(z3.simplify(bounds[-1] + pn))
+        # ... and a slice that lies inside one part is a slice of that part
+        for i, p_ in enumerate(s.parts):
+            if st.quick(z3.And(bounds[i] <= l, h <= bounds[i + 1], l <= h)):
+                inner = seq_slice(p_, mk(z3.simplify(l - bounds[i])), mk(z3.simplify(h - bounds[i])))
+                return inner.as_kind(s.kind)
         li = [i for i, b_ in enumerate(bounds) if st.quick(l == b_)]
         hi_ = [i for i, b_ in enumerate(bounds) if st.quick(h == b_)]
         if li and hi_ and li[0] <= hi_[-1]:
@@ -777,7 +807,9 @@ def seq_slice(s, lo, hi):
     if z3.is_int_value(ln):
         nv = ln.as_long()
         return Seq(s.kind, None, items=[s.at(mk(l + j)) for j in range(nv)], elem=s.elem)
-    return Seq(s.kind, ln, at=lambda k, s=s, l=l: s.at(mk(l + zint(k))), elem=s.elem)
+    r_ = Seq(s.kind, ln, at=lambda k, s=s, l=l: s.at(mk(l + zint(k))), elem=s.elem)
+    r_.src = (s, l, z3.simplify(h))
+    return r_
 
 
 def seq_eq(a, b):
